@@ -271,7 +271,19 @@ def leaf_contains_bdist(E, env):
 
 
 # ---------------------------------------------------------------- motions --------------
+def euler_matrix(e):
+    a, b, c = [float(np.float32(v)) for v in e]
+    Rz = np.array([[math.cos(a), -math.sin(a), 0], [math.sin(a), math.cos(a), 0], [0, 0, 1]])
+    Ry = np.array([[math.cos(b), 0, math.sin(b)], [0, 1, 0], [-math.sin(b), 0, math.cos(b)]])
+    Rx = np.array([[1, 0, 0], [0, math.cos(c), -math.sin(c)], [0, math.sin(c), math.cos(c)]])
+    return Rz @ Ry @ Rx
+
+
 def _rot(E, env, N):
+    if "euler" in E:      # constant 3-D rotation given as a matrix
+        R = np.broadcast_to(_f32(euler_matrix(E["euler"])), (N, 3, 3)).copy()
+        ar = pval(E["around"], env, N) if E.get("around") else np.zeros((N, 3))
+        return R, ar
     a = pval(E["angle"], env, N)[:, 0]
     c, s = np.cos(a), np.sin(a)
     R = np.stack([np.stack([c, -s], axis=1), np.stack([s, c], axis=1)], axis=1)   # (N,2,2)
@@ -495,9 +507,12 @@ def ref_box(E, env):
         return a + np.repeat(v, 2, axis=1)
     if t == "rotate":
         a = ref_box(E["a"], env)
-        corners = np.stack([np.stack([a[:, i], a[:, 2 + j]], axis=1) for i in (0, 1) for j in (0, 1)], axis=1)
-        img = np.stack([push_forward(E, env, corners[:, k]) for k in range(4)], axis=1)
-        return np.stack([img[:, :, 0].min(1), img[:, :, 0].max(1), img[:, :, 1].min(1), img[:, :, 1].max(1)], axis=1)
+        d = a.shape[1] // 2
+        import itertools
+        corners = [np.stack([a[:, 2 * ax + bit] for ax, bit in enumerate(bits)], axis=1)
+                   for bits in itertools.product((0, 1), repeat=d)]
+        img = np.stack([push_forward(E, env, c) for c in corners], axis=1)
+        return np.stack([f(img[:, :, ax], 1) for ax in range(d) for f in (np.min, np.max)], axis=1)
     raise ValueError(t)
 
 
